@@ -37,6 +37,12 @@ func runC01(c *Ctx) {
 	r02_1(c, "R01.12")
 	// file bytes: the file writer stores every chunk it is handed (shared with C05)
 	r05_5(c, "R01.13")
+	if c.Unix() {
+		// device numbers are decoded in full (shared with C02)
+		r02_8(c, "R01.14")
+	}
+	// the diff ends only when both walks are exhausted (shared with C02)
+	r02_9(c, "R01.15")
 }
 
 // statSources: required provenance of each Stat field in the constructor.
